@@ -71,7 +71,11 @@ impl AsyncWrite for Shim {
     fn poll_flush(mut self: Pin<&mut Self>, cx: &mut Context<'_>) -> Poll<std::io::Result<()>> { Pin::new(&mut self.inner).poll_flush(cx) }
     fn poll_shutdown(mut self: Pin<&mut Self>, cx: &mut Context<'_>) -> Poll<std::io::Result<()>> { Pin::new(&mut self.inner).poll_shutdown(cx) }
 }
+/// The pipe presents itself to the server as a TCP connection (made-up loopback addresses), so that the accessors of `Request` that
+/// only know TCP connect infos (`remote_addr`, `peer_certs`) work over it as they do over a socket.
 impl tonic::transport::server::Connected for Shim {
-    type ConnectInfo = ();
-    fn connect_info(&self) {}
+    type ConnectInfo = tonic::transport::server::TcpConnectInfo;
+    fn connect_info(&self) -> Self::ConnectInfo {
+        tonic::transport::server::TcpConnectInfo { local_addr: Some(([127, 0, 0, 1], 50051).into()), remote_addr: Some(([127, 0, 0, 1], 40000).into()) }
+    }
 }
